@@ -813,3 +813,65 @@ theorem convL_skel (cfg : Cfg) : ∀ (xs : List Op), normalL cfg xs = true → p
 end
 
 end LinOp.C14
+
+/-! ### `_set_requires_grad` on arbitrary initial flags -/
+namespace LinOp.C14
+
+def rgLeaf (v : Bool) (l : Leaf) : Leaf := if l.dt.isFloat then { l with rg := v } else l
+
+/- every sub-operator argument, at every depth, reports a floating dtype (so `_set_requires_grad` descends into it) -/
+mutual
+def fdt (cfg : Cfg) : Op → Bool
+  | .leaf _ => true
+  | .val _ => true
+  | .node _ a _ d _ _ => fdtL cfg a && fdtL cfg d
+def fdtL (cfg : Cfg) : List Op → Bool
+  | [] => true
+  | x :: xs =>
+    (match x with
+     | .node c a dn d nkw hid => isFloatDT (dtypeOf cfg false (.node c a dn d nkw hid))
+     | _ => true) && fdt cfg x && fdtL cfg xs
+end
+
+def setRGHead (cfg : Cfg) (v : Bool) (x : Op) : Op :=
+  match x with
+  | .node c a dn d nkw hid =>
+    if isFloatDT (dtypeOf cfg false (.node c a dn d nkw hid)) then setRG cfg v (.node c a dn d nkw hid)
+    else .node c a dn d nkw hid
+  | y => setRG cfg v y
+
+theorem setRGL_cons (cfg : Cfg) (v : Bool) (x : Op) (xs : List Op) :
+    setRGL cfg v (x :: xs) = setRGHead cfg v x :: setRGL cfg v xs := by
+  cases x <;> rfl
+
+theorem setRG_node (cfg : Cfg) (v : Bool) (cls : String) (a : List Op) (dn : List String) (d : List Op) (nkw hid : KV) :
+    setRG cfg v (.node cls a dn d nkw hid) = .node cls (setRGL cfg v a) dn (setRGL cfg v d) nkw hid := rfl
+
+mutual
+theorem rep_setRG (cfg : Cfg) (v : Bool) : ∀ (o : Op), fdt cfg o = true →
+    rep (setRG cfg v o) = (rep o).map (rgLeaf v)
+  | .leaf l, _ => by simp [setRG, rep, rgLeaf]
+  | .val x, _ => by simp [setRG, rep]
+  | .node cls a dn d nkw hid, h => by
+    simp only [fdt, Bool.and_eq_true] at h
+    rw [setRG_node]
+    simp only [rep, List.map_append, repL_setRGL cfg v a h.1, repL_setRGL cfg v d h.2]
+theorem repL_setRGL (cfg : Cfg) (v : Bool) : ∀ (xs : List Op), fdtL cfg xs = true →
+    repL (setRGL cfg v xs) = (repL xs).map (rgLeaf v)
+  | [], _ => rfl
+  | x :: xs, h => by
+    simp only [fdtL, Bool.and_eq_true] at h
+    obtain ⟨⟨hx, hfx⟩, hxs⟩ := h
+    rw [setRGL_cons]
+    simp only [repL, List.map_append, repL_setRGL cfg v xs hxs]
+    congr 1
+    cases x with
+    | leaf l => simp [setRGHead, setRG, rep, rgLeaf]
+    | val y => simp [setRGHead, setRG, rep]
+    | node c a dn d nkw hid =>
+      simp only at hx
+      simp only [setRGHead, hx, if_true]
+      exact rep_setRG cfg v (.node c a dn d nkw hid) hfx
+end
+
+end LinOp.C14
